@@ -255,6 +255,59 @@ def layerNormComputeTypes : List Nat := [1, 11]     -- FLOAT, DOUBLE
 def layerNormCheck (xDtype : Option Nat) (epsSingleton : Bool) : Bool :=
   (match xDtype with | some t => layerNormComputeTypes.contains t | none => false) && epsSingleton
 
+/-! ## Layer-norm / RMS-norm fusion rules (`rules/fusion/_layer_norm.py`, `_rms_normalization.py`) -/
+
+inductive NormKind where
+  | layerNorm        -- `LayerNormFusion`
+  | layerNormBias    -- `LayerNormBiasFusion` (no check)
+  | rmsNorm          -- `RmsNormFusion` (both operand orders of the final Mul)
+  deriving Repr, DecidableEq
+
+def floatTypes : List Nat := [1, 10, 16, 11]     -- FLOAT, FLOAT16, BFLOAT16, DOUBLE
+
+structure NormFusion where
+  kind : NormKind
+  xDtype : Option Nat
+  scaleDtype : Option Nat := none
+  epsSingleton : Bool := true        -- `get_singleton_value(epsilon) is not None`
+  epsIsFloat : Bool := true          -- rms: `isinstance(epsilon_value, float)`
+  computeDtype : Option Nat := none  -- rms: the `to` of the optional leading Cast
+  /-- what `check` does not look at: rank of x and of the scale (bias for `layerNormBias`), and the opset -/
+  xRank : Nat := 2
+  otherRank : Nat := 1
+  opset : Nat := 23
+
+structure NormRepl where
+  stashType : Option Nat      -- `stash_type` attribute (none for the bias rule: attributes are copied)
+  deriving Repr, DecidableEq
+
+def dtypeIn (l : List Nat) : Option Nat → Bool
+  | some t => l.contains t
+  | none => false
+
+/-- `LayerNormFusion.check`. -/
+def NormFusion.lnOk (p : NormFusion) : Bool := dtypeIn layerNormComputeTypes p.xDtype && p.epsSingleton
+
+/-- `self._stash_dtype = compute_dtype if present else x.dtype`. -/
+def NormFusion.rmsStash (p : NormFusion) : Option Nat :=
+  match p.computeDtype with | some c => some c | none => p.xDtype
+
+/-- `RmsNormFusion.check`. -/
+def NormFusion.rmsOk (p : NormFusion) : Bool :=
+  p.epsSingleton && p.epsIsFloat && dtypeIn floatTypes p.xDtype && dtypeIn floatTypes p.scaleDtype &&
+  dtypeIn layerNormComputeTypes p.rmsStash
+
+def NormFusion.run (p : NormFusion) : Outcome NormRepl :=
+  match p.kind with
+  | .layerNorm => if p.lnOk then .fire { stashType := p.xDtype } else .nofire
+  | .layerNormBias => .fire { stashType := none }
+  | .rmsNorm => if p.rmsOk then .fire { stashType := p.rmsStash } else .nofire
+
+/-- Side conditions the fusion checks do not establish: the scale/bias must not outrank x (finding C05-N11) and
+`RMSNormalization` exists only from opset 23 (finding C05-N12). -/
+def NormFusion.hyp (p : NormFusion) : Bool :=
+  decide (p.otherRank ≤ p.xRank) && (p.kind != .rmsNorm || decide (23 ≤ p.opset))
+
 /-! ## ONNX `Slice` with step 1 on one axis, any start/end (for `collapse_slice2`) -/
 
 def clampI (v : Int) (d : Nat) : Nat := if v < 0 then 0 else if v > d then d else v.toNat
